@@ -349,10 +349,9 @@ def writeAttrs (w : W) (attrs : List (String × Nat)) : List Attr → W × List 
 
 /-- the `else` branch of `alreadyWrittenMesh` -/
 def writeMeshData (w : W) (id : Nat) (m : PMesh) : W × List (String × Nat) × Nat :=
-  let (w1, attrs) := writeAttrs w [] m.written
-  let idxAcc := w1.accessors.length
-  let w2 := writeIndices w1 m.indices m.attrLen
-  ({ w2 with written := mapInsert w2.written id (attrs, idxAcc) }, attrs, idxAcc)
+  let r := writeAttrs w [] m.written
+  let w2 := writeIndices r.1 m.indices m.attrLen
+  ({ w2 with written := mapInsert w2.written id (r.2, r.1.accessors.length) }, r.2, r.1.accessors.length)
 
 /-- `AddMesh` after the material has been resolved to an index; `none` result = the `-1` of an empty mesh -/
 def addMesh (w : W) (name : String) (id : Nat) (m : PMesh) (mat : Option Nat) : W × Option Nat :=
@@ -379,28 +378,41 @@ def findIdx {α} (p : α → Bool) : List α → Nat → Option Nat
 /-- `Sampler.equal` (the four enums and `ChildOfRootProperty.equal`: name; extras/extensions are not modelled) -/
 def Sampler.equal (a b : Sampler) : Bool := a == b
 
-def addTexture (w : W) (id : Nat) (t : PTexture) : W × TexInfo :=
-  -- prepareExtensions
-  let w := match t.xform with
-    | some _ => { w with extUsed := setInsert w.extUsed "KHR_texture_transform"
-                         extRequired := if t.xformRequired then setInsert w.extRequired "KHR_texture_transform" else w.extRequired }
-    | none => w
-  match lookup id w.texIdx with
+/-- `prepareExtensions`: a texture transform marks KHR_texture_transform as used (and required when flagged) -/
+def texPrepare (w : W) (t : PTexture) : W :=
+  match t.xform with
+  | some _ => { w with extUsed := setInsert w.extUsed "KHR_texture_transform"
+                       extRequired := if t.xformRequired then setInsert w.extRequired "KHR_texture_transform" else w.extRequired }
+  | none => w
+
+/-- image by URI: first image with that URI, else append -/
+def texImage (w : W) (uri : String) : W × Nat :=
+  match findIdx (fun u => u == uri) w.images 0 with
+  | some i => (w, i)
+  | none => ({ w with images := w.images ++ [uri] }, w.images.length)
+
+/-- sampler by value: first equal sampler, else append -/
+def texSampler (w : W) (s : Option Sampler) : W × Option Nat :=
+  match s with
+  | none => (w, none)
+  | some s => match findIdx (fun x => s.equal x) w.samplers 0 with
+    | some i => (w, some i)
+    | none => ({ w with samplers := w.samplers ++ [s] }, some w.samplers.length)
+
+/-- texture by (source, sampler): first equal texture, else append and remember the pointer -/
+def texFinish (w : W) (id : Nat) (t : PTexture) (img : Nat) (smp : Option Nat) : W × TexInfo :=
+  match findIdx (fun x => x == ({ sampler := smp, source := some img } : GTexture)) w.textures 0 with
   | some i => (w, { index := i, xform := t.xform })
+  | none => ({ w with texIdx := mapInsert w.texIdx id w.textures.length,
+                      textures := w.textures ++ [{ sampler := smp, source := some img }] },
+             { index := w.textures.length, xform := t.xform })
+
+def addTexture (w : W) (id : Nat) (t : PTexture) : W × TexInfo :=
+  match lookup id (texPrepare w t).texIdx with
+  | some i => (texPrepare w t, { index := i, xform := t.xform })
   | none =>
-    let (w, img) := match findIdx (fun u => u == t.uri) w.images 0 with
-      | some i => (w, i)
-      | none => ({ w with images := w.images ++ [t.uri] }, w.images.length)
-    let (w, smp) : W × Option Nat := match t.sampler with
-      | none => (w, none)
-      | some s => match findIdx (fun x => s.equal x) w.samplers 0 with
-        | some i => (w, some i)
-        | none => ({ w with samplers := w.samplers ++ [s] }, some w.samplers.length)
-    let newTex : GTexture := { sampler := smp, source := some img }
-    match findIdx (fun x => x == newTex) w.textures 0 with
-    | some i => (w, { index := i, xform := t.xform })
-    | none => ({ w with texIdx := mapInsert w.texIdx id w.textures.length, textures := w.textures ++ [newTex] },
-               { index := w.textures.length, xform := t.xform })
+    texFinish (texSampler (texImage (texPrepare w t) t.uri).1 t.sampler).1 id t
+      (texImage (texPrepare w t) t.uri).2 (texSampler (texImage (texPrepare w t) t.uri).1 t.sampler).2
 
 def optEq {α} (f : α → α → Bool) : Option α → Option α → Bool
   | none, none => true
